@@ -289,8 +289,20 @@ func ensureLinkPath(baseAbs, baseRel, link, target string) (string, error) {
 	return target, nil
 }
 
+// removeSymlink removes path if it is a symbolic link.
+func removeSymlink(path string) error {
+	if info, err := os.Lstat(path); err == nil && info.Mode()&os.ModeSymlink != 0 {
+		return os.Remove(path)
+	}
+	return nil
+}
+
 // writeFile writes content to the file specified by the `path` parameter.
 func writeFile(path string, r io.Reader, perm os.FileMode, buf []byte) (err error) {
+	// an entry replaces an existing symbolic link, it is not written through it
+	if err := removeSymlink(path); err != nil {
+		return err
+	}
 	file, err := os.OpenFile(path, os.O_WRONLY|os.O_CREATE|os.O_TRUNC, perm)
 	if err != nil {
 		return err
